@@ -40,6 +40,8 @@ def main():
     import logging
 
     logging.disable(logging.CRITICAL)  # Rally logs every retried fault with a traceback; nothing reads it here
+    # coroutines abandoned by a simulated crash are collected at the end of their run; CPython reports their unwinding on stderr
+    sys.unraisablehook = lambda *a, **kw: None
     from esrally.utils import console
 
     console.init(quiet=True)
